@@ -18,7 +18,7 @@ RULE = ("cases: every (degree 1..8, elevation count 1..4) pair x polygon class {
 ASSUMPTIONS = ["exact de Casteljau in Fractions (nvmon.ref.bernstein_point)", "coordinates |x| <= 1e3, weights in [0.2,5]"]
 FLOORS = {'quick': {'elev-identity': 3000, 'endpoints': 300, 'reduce-inverts': 200, 'multi-step': 100, 'reject': 60},
           'thorough': {'elev-identity': 30000, 'reduce-inverts': 2000}}
-MANDATORY_TAGS = ['deg8', 'deg1', 'num4', 'cls:homogeneous', 'cls:rows', 'cls:cartesian', 'cls:curve-level']
+MANDATORY_TAGS = ['deg8', 'deg1', 'num4', 'cls:homogeneous', 'cls:rows', 'cls:cartesian', 'cls:curve-level', 'cls:nonbezier-interior', 'cls:nonbezier-unclamped', 'cls:surface-level']
 TECHNIQUE = ("runtime monitoring: exact polynomial-identity oracle (de Casteljau in rational arithmetic) on every "
              "degree_elevation / degree_reduction call made by an enumerating workload")
 LEVEL_TEXT = ("Each call is decided completely for its input (identity of two polynomials checked at more points than their "
@@ -43,6 +43,11 @@ def gen(rng, tier, shard, nshards):
         if rep % nshards == shard:
             yield {'kind': 'curve', 'p': rng.randint(1, 6), 't': rng.randint(1, 3), 'rational': rng.random() < 0.5,
                    'dim': rng.choice([2, 3]), 'seed': rng.randrange(1 << 30)}
+            if rep % 3 != 2:
+                yield {'kind': 'nonbezier', 'p': rng.randint(1, 4), 't': rng.randint(1, 2), 'rational': rng.random() < 0.5,
+                       'cls': rng.choice(['interior', 'unclamped']), 'seed': rng.randrange(1 << 30)}
+            if rep % 2 == 1:
+                yield {'kind': 'surface-ops', 't': rng.randint(1, 2), 'rational': rng.random() < 0.5, 'seed': rng.randrange(1 << 30)}
 
 
 def polygon(rng, p, cls, dim):
@@ -75,9 +80,94 @@ def same_curve(ctx, P, Q, what, key, msg):
     return True
 
 
+def check_nonbezier(case, ctx, rng):
+    """operations.degree_operations on a curve that is NOT a Bezier curve (interior knots, or a single span with unclamped ends): the
+    property allows two outcomes - the request is rejected, or the result is the same curve (a general B-spline elevation)."""
+    from geomdl import operations
+    from geomdl.exceptions import GeomdlException
+    from .. import shapeops as so
+    p, t = case['p'], case['t']
+    cls = case['cls']
+    if cls == 'interior':
+        for _ in range(20):
+            sd = G.rand_shape(rng, 1, rational=case['rational'], clamped_only=True, kvcls='random', mindeg=p, maxdeg=p, maxextra=3)
+            if sd['sizes'][0] > p + 1:
+                break
+        else:
+            raise Reject()
+    else:
+        sd = G.rand_shape(rng, 1, rational=case['rational'], kvcls='unclamped', mindeg=p, maxdeg=p, maxextra=0, normalize=False)
+        if len(set(sd['kvs'][0][:p + 1])) == 1 and len(set(sd['kvs'][0][-p - 1:])) == 1:
+            raise Reject()
+    o = G.build(sd)
+    S0 = G.defn_of(o)
+    pre = G.snapshot(o)
+    ctx.tag('cls:nonbezier-' + cls)
+    ctx.nontriv(True)
+    try:
+        with so.quiet():
+            operations.degree_operations(o, [t])
+    except GeomdlException:
+        ctx.ok('nonbezier')
+        ctx.check(G.snapshot(o) == pre, 'operations/nonbezier-rejected-but-modified', 'degree_operations rejected a non-Bezier curve but modified it',
+                  what='nonbezier')
+        return
+    post = G.snapshot(o)
+    S1 = G.defn_of_snapshot(post)
+    dom0, dom1 = S0.domain()[0], S1.domain()[0]
+    same_dom = abs(float(dom0[0]) - float(dom1[0])) <= 1e-12 and abs(float(dom0[1]) - float(dom1[1])) <= 1e-12
+    ok = same_dom and post['degrees'][0] == p + t
+    if ok:
+        sc = so.scale_of_defn(S0)
+        for q in so.probe_params(rng, S0, nrand=5, maxn=14):
+            a, b = S0.point(q), S1.point(q)
+            if any(abs(x - y) > F(1e-9 * sc) for x, y in zip(a, b)):
+                ok = False
+                break
+    ctx.check(ok, 'operations/non-bezier-curve-accepted-and-changed', 'degree_operations(curve, [%d]) on a non-Bezier curve (degree %d, %s) neither '
+              'rejected it nor preserved it: degree %d -> %d, domain %r -> %r' % (t, p, 'interior knots' if cls == 'interior' else 'single span, '
+              'unclamped ends', p, post['degrees'][0], tuple(map(float, dom0)), tuple(map(float, dom1))), what='nonbezier')
+
+
+def check_surface_ops(case, ctx, rng):
+    """operations.degree_operations on a Bezier surface (rows of points at object level): elevated to the requested degrees with the same
+    points, or rejected - not a silent no-op"""
+    from geomdl import operations
+    from geomdl.exceptions import GeomdlException
+    from .. import shapeops as so
+    sd = G.rand_shape(rng, 2, rational=case['rational'], kvcls='bezier', maxdeg=3, maxextra=0)
+    o = G.build(sd)
+    S0 = G.defn_of(o)
+    pre = G.snapshot(o)
+    prm = [case['t'], rng.choice([0, 1, 2])]
+    rng.shuffle(prm)
+    ctx.tag('cls:surface-level')
+    ctx.nontriv(True)
+    try:
+        with so.quiet():
+            operations.degree_operations(o, prm)
+    except GeomdlException:
+        ctx.ok('surface-level')
+        return
+    post = G.snapshot(o)
+    want = [p + t for p, t in zip(pre['degrees'], prm)]
+    if not ctx.check(post['degrees'] == want, 'operations/surface-silent-noop', 'degree_operations(surface, %r) returned without an error but the degrees '
+                     'are %r (were %r)' % (prm, post['degrees'], pre['degrees']), what='surface-level'):
+        return
+    S1 = G.defn_of_snapshot(post)
+    sc = so.scale_of_defn(S0)
+    for q in so.probe_params(rng, S0, nrand=5, maxn=12):
+        ctx.near([float(x) for x in S1.point(q)], S0.point(q), 1e-9 * sc, 'operations/surface-changed', 'degree_operations moved the surface at %r' % (q,),
+                 what='surface-level')
+
+
 def check(case, ctx):
     from geomdl import helpers
     rng = random.Random(case['seed'])
+    if case['kind'] == 'nonbezier':
+        return check_nonbezier(case, ctx, random.Random(case['seed']))
+    if case['kind'] == 'surface-ops':
+        return check_surface_ops(case, ctx, random.Random(case['seed']))
     if case['kind'] == 'reject':
         return check_reject(case, ctx, rng)
     if case['kind'] == 'curve':
